@@ -337,7 +337,7 @@ macro_rules! c07_normal {
 }
 //@ id: c07_normal_f64
 //@ prop: C07
-//@ tier: quick
+//@ tier: thorough
 //@ cap: 900
 //@ funcs: Normal::<f64>::new; Normal::<f64>::sample; from_zscore
 //@ bounds: every accepted (mean, std_dev) incl. negative and zero std_dev; z over the free-stub value set {0,-0,+-1,2,1/2,3/4,-3}
@@ -390,7 +390,7 @@ macro_rules! c07_lognormal {
 }
 //@ id: c07_lognormal_f64
 //@ prop: C07
-//@ tier: quick
+//@ tier: thorough
 //@ cap: 900
 //@ funcs: LogNormal::<f64>::new; LogNormal::<f64>::sample
 //@ bounds: every accepted (mu, sigma); z over the free-stub value set
